@@ -15,4 +15,6 @@ CONSTANTS
   DevRehashDropsBoundary = FALSE
   DevRebuildDropsLast = FALSE
   DevCsumClearsLeaf = FALSE
+  DevSbCsumRefuses = FALSE
+  DevInodeUninitWipes = FALSE
 CHECK_DEADLOCK FALSE
